@@ -146,29 +146,31 @@ def statements():
 def cutfile(N):
     n = NS[N]
     sv = svars(N)
-    o = ["(* C22 -- the cut quantities are polynomials whose derivatives are the next cut quantities (written by mkcoq.py).",
-         "   iso: d(s|s)/ds_j = 2 dev_j, dJ3/ds_j = b_j (computeJ3Derivative), db_i/ds_j = h_ij (computeJ3SecondDerivative);",
-         "   ort: dJ2O/ds_j = p_j, dp_i/ds_j = q_ij, dJ3O/ds_j = r_j, dr_i/ds_j = t_ij (computeJ2O/J3O[Second]Derivative). *)",
-         HEAD + "From C22 Require Import C22InvSpec C22InvTac C22inv_gen.\nImport ListNotations.\nLocal Open Scope R_scope.\n"]
+    head = ["(* C22 -- the cut quantities are polynomials whose derivatives are the next cut quantities (written by mkcoq.py).",
+            "   iso: d(s|s)/ds_j = 2 dev_j, dJ3/ds_j = b_j (computeJ3Derivative), db_i/ds_j = h_ij (computeJ3SecondDerivative);",
+            "   ort: dJ2O/ds_j = p_j, dp_i/ds_j = q_ij, dJ3O/ds_j = r_j, dr_i/ds_j = t_ij (computeJ2O/J3O[Second]Derivative). *)",
+            HEAD + "From C22 Require Import C22InvSpec C22InvTac C22inv_gen.\nImport ListNotations.\nLocal Open Scope R_scope.\n"]
+    for fam in ("iso", "ort"):
+        o = list(head)
 
-    def lem(name, fam, f, d_txt, j):
-        allv = " ".join(sv + cutparams(fam))
-        unf = set()
-        o.append("Lemma %s %s : is_derive (fun x => %s) %s %s.\nProof. unfold %s. cutder. Qed." % (
-            name, allv, cutfn(fam, N, f, sw(N, j, "x")), sv[j], d_txt,
-            ", ".join(sorted({"%s_%s_%d" % (fam, f, N)} | {w.strip("()").split()[0] for w in [d_txt] if w.startswith("(" + fam)}))))
-    for j in range(n):
-        lem("iso%d_dss_%d" % (N, j), "iso", "ss", "(2 * %s)" % devtxt(N, j, sv), j)
-        lem("iso%d_dj3_%d" % (N, j), "iso", "j3", cutfn("iso", N, "b%d" % j, sv), j)
-        for i in range(n):
-            lem("iso%d_db%d_%d" % (N, i, j), "iso", "b%d" % i, cutfn("iso", N, "h%d%d" % (i, j), sv), j)
-    for j in range(n):
-        lem("ort%d_dk2_%d" % (N, j), "ort", "k2", cutfn("ort", N, "p%d" % j, sv), j)
-        lem("ort%d_dk3_%d" % (N, j), "ort", "k3", cutfn("ort", N, "r%d" % j, sv), j)
-        for i in range(n):
-            lem("ort%d_dp%d_%d" % (N, i, j), "ort", "p%d" % i, cutfn("ort", N, "q%d%d" % (i, j), sv), j)
-            lem("ort%d_dr%d_%d" % (N, i, j), "ort", "r%d" % i, cutfn("ort", N, "t%d%d" % (i, j), sv), j)
-    open(os.path.join(COQ, "C22InvCuts%d.v" % N), "w").write("\n".join(o) + "\n")
+        def lem(name, f, d_txt, j):
+            allv = " ".join(sv + cutparams(fam))
+            o.append("Lemma %s %s : is_derive (fun x => %s) %s %s.\nProof. unfold %s. cutder. Qed." % (
+                name, allv, cutfn(fam, N, f, sw(N, j, "x")), sv[j], d_txt,
+                ", ".join(sorted({"%s_%s_%d" % (fam, f, N)} | {w.strip("()").split()[0] for w in [d_txt] if w.startswith("(" + fam)}))))
+        for j in range(n):
+            if fam == "iso":
+                lem("iso%d_dss_%d" % (N, j), "ss", "(2 * %s)" % devtxt(N, j, sv), j)
+                lem("iso%d_dj3_%d" % (N, j), "j3", cutfn("iso", N, "b%d" % j, sv), j)
+                for i in range(n):
+                    lem("iso%d_db%d_%d" % (N, i, j), "b%d" % i, cutfn("iso", N, "h%d%d" % (i, j), sv), j)
+            else:
+                lem("ort%d_dk2_%d" % (N, j), "k2", cutfn("ort", N, "p%d" % j, sv), j)
+                lem("ort%d_dk3_%d" % (N, j), "k3", cutfn("ort", N, "r%d" % j, sv), j)
+                for i in range(n):
+                    lem("ort%d_dp%d_%d" % (N, i, j), "p%d" % i, cutfn("ort", N, "q%d%d" % (i, j), sv), j)
+                    lem("ort%d_dr%d_%d" % (N, i, j), "r%d" % i, cutfn("ort", N, "t%d%d" % (i, j), sv), j)
+        open(os.path.join(COQ, "C22InvCuts_%s%d.v" % (fam, N)), "w").write("\n".join(o) + "\n")
 
 
 # ------------------------------------------------------------------ proofs of one criterion, one N
@@ -201,9 +203,9 @@ def critfile(X, N):
     ccn = ", ".join("%s_%s_%d" % (fam, nm, N) for nm in ccuts(fam, N))
     J2n, J3n = ("ss", "j3") if fam == "iso" else ("k2", "k3")
     o = ["(* C22 -- %s, N = %d: proofs (written by mkcoq.py, committed).  One lemma per entry of the gradient / Jacobian:" % (CR[X]["title"], N),
-         "   the cut quantities are abstracted as functions of the varying component with the derivatives proved in C22InvCuts%d.v," % N,
+         "   the cut quantities are abstracted as functions of the varying component with the derivatives proved in C22InvCuts_%s%d.v," % (fam, N),
          "   auto_derive differentiates the traced leaf, the result is compared with the traced derivative by field. *)",
-         HEAD + "From C22 Require Import C22InvSpec C22InvTac C22inv_gen C22InvStatements C22InvCuts%d C22InvCrit.\nImport ListNotations.\nLocal Open Scope R_scope.\n" % N]
+         HEAD + "From C22 Require Import C22InvSpec C22InvTac C22inv_gen C22InvStatements C22InvCuts_%s%d C22InvCrit.\nImport ListNotations.\nLocal Open Scope R_scope.\n" % (fam, N)]
     ent = o.append
     # ---- abstract lemmas (all hypotheses explicit, in a fixed order)
     def abs_binders(j):
